@@ -469,10 +469,9 @@ Definition query_scoped (schs : list schema) (w : jpred) (sl : list nat) : Prop 
   (forall c, In c (jpred_cols w) -> c < total (widths schs)) /\
   (forall c, In c sl -> c < total (widths schs)).
 
-(** Every equality links two different tables, on columns of one type. *)
+(** Every equality [column = column] (between two tables or inside one) compares columns of one type. *)
 Definition conds_ok (schs : list schema) (w : jpred) : Prop :=
-  forall c1 c2, In (c1, c2) (jeqs w) ->
-    table_of (widths schs) c1 <> table_of (widths schs) c2 /\ gcol_type schs c1 = gcol_type schs c2.
+  forall c1 c2, In (c1, c2) (jeqs w) -> gcol_type schs c1 = gcol_type schs c2.
 
 (** The filters [column op literal]: the C06 side conditions, table by table. *)
 Definition filters_ok (schs : list schema) (ts : list table) (w : jpred) : Prop :=
@@ -504,11 +503,6 @@ Proof.
   rewrite (vcmp_antisym a b). destruct (vcmp a b) as [[]|]; reflexivity.
 Qed.
 
-Lemma f_key_inj u v : u <> two31 -> v <> two31 -> f_key u = f_key v -> u = v.
-Proof.
-  unfold f_key, two31. intros Hu Hv. destruct (u <? 2147483648)%N eqn:Eu, (v <? 2147483648)%N eqn:Ev; lia.
-Qed.
-
 Lemma go_feq_key u v : go_feq u v = true -> f_key u = f_key v.
 Proof.
   unfold go_feq. intros H. apply andb_true_iff in H. destruct H as [_ H]. now apply Z.eqb_eq in H.
@@ -517,33 +511,43 @@ Qed.
 Lemma s_eq_eq s t : s_eq s t = true -> s = t.
 Proof. unfold s_eq. destruct (lex_cmp s t) eqn:E; try discriminate. intros _. now apply lex_cmp_eq. Qed.
 
-Lemma cv_eq_same ty a b : val_ok ty a -> val_ok ty b -> a <> VNull -> b <> VNull ->
-  a <> VFloat two31 -> b <> VFloat two31 -> cv_eq a b = true -> a = b.
+Lemma f_key_canon u v : f_key u = f_key v ->
+  (if N.eqb u two31 then 0%N else u) = (if N.eqb v two31 then 0%N else v).
 Proof.
-  intros Ha Hb Na Nb Za Zb. unfold cv_eq.
+  unfold f_key, two31. intros H.
+  destruct (u =? 2147483648)%N eqn:Eu, (v =? 2147483648)%N eqn:Ev,
+           (u <? 2147483648)%N eqn:Lu, (v <? 2147483648)%N eqn:Lv; lia.
+Qed.
+
+(** keys that CompareEquals calls equal hash alike (with the zero fix) *)
+Lemma cv_eq_canon ty a b : val_ok ty a -> val_ok ty b -> a <> VNull -> b <> VNull ->
+  cv_eq a b = true -> canon_key true a = canon_key true b.
+Proof.
+  intros Ha Hb Na Nb. unfold cv_eq.
   destruct a as [|x|u|s]; [congruence| | |]; destruct b as [|y|v|t]; try congruence;
     cbn [is_null andb orb val_ok] in *;
     try solve [repeat match goal with H : _ /\ _ |- _ => destruct H end; congruence].
-  - cbn [cv_is_inf_max raw_eq]. destruct ((x =? max_int32)%Z) eqn:E1, ((y =? max_int32)%Z) eqn:E2; cbn [andb];
+  - cbn [cv_is_inf_max raw_eq canon_key]. destruct ((x =? max_int32)%Z) eqn:E1, ((y =? max_int32)%Z) eqn:E2; cbn [andb];
       intros H; try (apply Z.eqb_eq in H; now subst).
     apply Z.eqb_eq in E1, E2. now subst.
-  - assert (u <> two31) as Hu by congruence. assert (v <> two31) as Hv by congruence.
+  - assert (f_key u = f_key v -> canon_key true (VFloat u) = canon_key true (VFloat v)) as K.
+    { intros K. cbn [canon_key andb]. pose proof (f_key_canon u v K) as E.
+      destruct (u =? two31)%N, (v =? two31)%N; congruence. }
     cbn [cv_is_inf_max raw_eq]. destruct (go_feq u max_f32) eqn:E1, (go_feq v max_f32) eqn:E2; cbn [andb]; intros H;
-      try (apply go_feq_key in H; f_equal; now apply f_key_inj).
-    apply go_feq_key in E1, E2. f_equal. apply f_key_inj; congruence.
-  - cbn [cv_is_inf_max raw_eq]. destruct (s_eq s inf_max_str) eqn:E1, (s_eq t inf_max_str) eqn:E2; cbn [andb]; intros H;
+      try (apply go_feq_key in H; now apply K).
+    apply go_feq_key in E1, E2. apply K. congruence.
+  - cbn [cv_is_inf_max raw_eq canon_key]. destruct (s_eq s inf_max_str) eqn:E1, (s_eq t inf_max_str) eqn:E2; cbn [andb]; intros H;
       try (apply s_eq_eq in H; now subst).
     apply s_eq_eq in E1, E2. now subst.
 Qed.
 
 (** the three tests of the hash join on admissible keys are the reference equality *)
 Lemma hash_test_ref (h : value -> N) ty a b : val_ok ty a -> val_ok ty b -> a <> VNull -> b <> VNull ->
-  a <> VFloat two31 -> b <> VFloat two31 ->
-  negb (is_null a) && N.eqb (h a) (h b) && cv_eq a b = eval_cmp OEq a b.
+  negb (is_null a) && N.eqb (h (canon_key true a)) (h (canon_key true b)) && cv_eq a b = eval_cmp OEq a b.
 Proof.
-  intros Ha Hb Na Nb Za Zb. rewrite <- (cv_eq_ref ty a b Ha Hb Nb).
+  intros Ha Hb Na Nb. rewrite <- (cv_eq_ref ty a b Ha Hb Nb).
   destruct (cv_eq a b) eqn:E; [|apply andb_false_r].
-  rewrite (cv_eq_same ty a b Ha Hb Na Nb Za Zb E), N.eqb_refl. destruct b; [congruence| | |]; reflexivity.
+  rewrite (cv_eq_canon ty a b Ha Hb Na Nb E), N.eqb_refl. destruct a; [congruence| | |]; reflexivity.
 Qed.
 
 Lemma eval_coleq g c1 c2 : nth c1 g VNull <> VNull -> nth c2 g VNull <> VNull ->
@@ -589,6 +593,19 @@ Proof. intros H. cbn. apply in_or_app. now right. Qed.
 Lemma jeqs_sub_and_r a b x : In x (jeqs b) -> In x (jeqs (JAnd a b)).
 Proof. intros H. cbn. apply in_or_app. now left. Qed.
 
+Lemma fold_and_sem (f : jpred -> bool) : (forall a b, f (JAnd a b) = f a && f b) ->
+  forall l e, f (fold_left JAnd l e) = f e && forallb f l.
+Proof.
+  intros Hf. induction l as [|q l IH]; intros e; cbn [fold_left forallb]; [now rewrite andb_true_r|].
+  rewrite IH, Hf. now rewrite andb_assoc.
+Qed.
+
+Lemma scan_conj_sem (f : jpred -> bool) l e : (forall a b, f (JAnd a b) = f a && f b) ->
+  scan_conj l = Some e -> f e = forallb f l.
+Proof.
+  intros Hf H. destruct l as [|x rest]; [discriminate|]. injection H as <-. now rewrite (fold_and_sem f Hf).
+Qed.
+
 Lemma table_pred_no_or ws i e : has_or (table_pred ws i e) = false.
 Proof.
   induction e as [|c1 c2|c o l|a IHa b IHb]; cbn; try reflexivity.
@@ -612,7 +629,6 @@ Hypothesis Hconds : conds_ok schs w.
 Hypothesis Hfilters : filters_ok schs ts w.
 Hypothesis Hidx : indexed_cols_nonnull schs ts.
 Hypothesis Hnonnull : no_null_keys schs ts w.
-Hypothesis Hnonegz : no_neg_zero_keys schs ts w.
 
 Let Hrows : rows_wf ws ts.
 Proof. apply Hwf. Qed.
@@ -661,7 +677,7 @@ Proof. unfold spec. intros H. apply filter_In in H. apply H. Qed.
 (** ** Join-key values inside global rows *)
 
 Definition kv_ok (c : nat) (v : value) : Prop :=
-  v <> VNull /\ v <> VFloat two31 /\ val_ok (gcol_type schs c) v.
+  v <> VNull /\ val_ok (gcol_type schs c) v.
 
 Lemma key_fact M g c : In g (gcomb M ws ts) -> In c (key_cols w) -> M (table_of ws c) = true ->
   kv_ok c (nth c g VNull).
@@ -672,7 +688,7 @@ Proof.
   destruct (gcomb_row ws M ts g (table_of ws c) Hrows Hg HM Hi) as (r & Hr & Hv).
   replace (nth c g VNull) with (nth (local_of ws c) r VNull)
     by (rewrite <- (Hv _ Hk), <- col_split; reflexivity).
-  split; [exact (Hnonnull c Hc r Hr)|split; [exact (Hnonegz c Hc r Hr)|]].
+  split; [exact (Hnonnull c Hc r Hr)|].
   unfold gcol_type. destruct Hwf as (_ & _ & Htok). rewrite widths_length in Hi.
   exact (Htok _ Hi r Hr (local_of ws c)).
 Qed.
@@ -753,8 +769,9 @@ Definition cols_ok (M : nat -> bool) (cols : list nat) : Prop :=
 Definition good (M : nat -> bool) (p : jplan) : Prop :=
   cols_ok M (jcols ws p) /\
   (forall i, whole_scan p = Some i ->
-     i < length schs /\ (forall j, M j = Nat.eqb j i) /\ cmps (table_pred ws i w) = []) /\
-  exists out, run_join h schs ts p = Some out /\
+     i < length schs /\ (forall j, M j = Nat.eqb j i) /\
+     cmps (table_pred ws i w) = [] /\ table_eqs ws i w = []) /\
+  exists out, run_join_gen true h schs ts p = Some out /\
               Permutation out (map (project (jcols ws p)) (spec M)).
 
 Lemma spec_ext M M' : (forall i, M i = M' i) -> spec M = spec M'.
@@ -765,7 +782,7 @@ Proof.
   intros H ((C1 & C2) & Hw & out & Hr & Hp). split; [split|split].
   - intros c Hc. rewrite <- H. now apply C1.
   - intros c Ht Hc. rewrite <- H in Hc. now apply C2.
-  - intros i Hi. destruct (Hw i Hi) as (A & B & C). repeat split; try assumption. intros j. now rewrite <- H.
+  - intros i Hi. destruct (Hw i Hi) as (A & B & C & D). repeat split; try assumption. intros j. now rewrite <- H.
   - exists out. split; [assumption|]. now rewrite <- (spec_ext M M' H).
 Qed.
 
@@ -783,22 +800,39 @@ Proof.
   destruct H; [now apply (proj1 Hscope)|now apply (proj2 Hscope)].
 Qed.
 
-(** on an embedded row of table [i] the restricted WHERE is the table's own predicate *)
-Lemma eval_embed i r e : (forall c1 c2, In (c1, c2) (jeqs e) -> table_of ws c1 <> table_of ws c2) ->
-  (forall c, In c (jpred_cols e) -> c < total ws) ->
-  eval_jpred (embed ws i r) (restr (fun j => Nat.eqb j i) e) = eval_pred r (table_pred ws i e).
+(** the same-table equalities of table [i] on a global row *)
+Definition mk_eq (e : nat * nat) : jpred := JColEq (fst e) (snd e).
+Definition eqs_hold (g : row) (l : list (nat * nat)) : bool := forallb (eval_jpred g) (map mk_eq l).
+
+Lemma table_eqs_and i a b : table_eqs ws i (JAnd a b) = table_eqs ws i b ++ table_eqs ws i a.
+Proof. unfold table_eqs. cbn [jeqs]. apply filter_app. Qed.
+
+Lemma table_eqs_in i e x : In x (table_eqs ws i e) ->
+  In x (jeqs e) /\ table_of ws (fst x) = i /\ table_of ws (snd x) = i.
 Proof.
-  induction e as [|c1 c2|c o l|a IHa b IHb]; intros Hx Hs; cbn [restr table_pred eval_pred].
+  unfold table_eqs. intros H. apply filter_In in H. destruct H as [H1 H2].
+  apply andb_true_iff in H2. destruct H2 as [A B]. apply Nat.eqb_eq in A, B. auto.
+Qed.
+
+(** on an embedded row of table [i] the restricted WHERE is the table's own predicate
+    and its same-table equalities *)
+Lemma eval_embed i r e : (forall c, In c (jpred_cols e) -> c < total ws) ->
+  eval_jpred (embed ws i r) (restr (fun j => Nat.eqb j i) e) =
+  eval_pred r (table_pred ws i e) && eqs_hold (embed ws i r) (table_eqs ws i e).
+Proof.
+  induction e as [|c1 c2|c o l|a IHa b IHb]; intros Hs.
   - reflexivity.
-  - destruct (table_of ws c1 =? i) eqn:E1, (table_of ws c2 =? i) eqn:E2; cbn [andb]; try reflexivity.
-    apply Nat.eqb_eq in E1, E2. exfalso. apply (Hx c1 c2); [cbn; auto|congruence].
-  - destruct (table_of ws c =? i) eqn:E; [|reflexivity]. apply Nat.eqb_eq in E.
+  - cbn [restr table_pred eval_pred]. unfold eqs_hold, table_eqs. cbn [jeqs filter fst snd].
+    destruct ((table_of ws c1 =? i) && (table_of ws c2 =? i)); cbn [map forallb mk_eq fst snd andb].
+    + now rewrite andb_true_r.
+    + reflexivity.
+  - cbn [restr table_pred]. unfold eqs_hold, table_eqs. cbn [jeqs filter map forallb]. rewrite andb_true_r.
+    destruct (table_of ws c =? i) eqn:E; [|reflexivity]. apply Nat.eqb_eq in E.
     cbn [eval_jpred eval_pred]. rewrite (col_split ws c) at 1. rewrite E, nth_embed. reflexivity.
-  - cbn [eval_jpred]. rewrite IHa, IHb; [reflexivity| | | |].
-    + intros c1 c2 H. apply Hx. now apply jeqs_sub_and_r.
-    + intros c H. apply Hs. cbn. apply in_or_app. now right.
-    + intros c1 c2 H. apply Hx. now apply jeqs_sub_and_l.
-    + intros c H. apply Hs. cbn. apply in_or_app. now left.
+  - cbn [restr table_pred eval_pred eval_jpred]. rewrite table_eqs_and. unfold eqs_hold in *.
+    rewrite map_app, forallb_app, IHa, IHb by (intros c H; apply Hs; cbn; apply in_or_app; auto).
+    destruct (eval_pred r (table_pred ws i a)), (eval_pred r (table_pred ws i b)); cbn [andb];
+      rewrite ?andb_false_r; try reflexivity. apply andb_comm.
 Qed.
 
 Lemma project_embed i cols r : project (map (Nat.add (offs ws i)) cols) (embed ws i r) = project cols r.
@@ -806,12 +840,11 @@ Proof. unfold project. rewrite map_map. apply map_ext. intros c. apply nth_embed
 
 Lemma spec_single i : i < length schs ->
   spec (fun j => Nat.eqb j i) =
-  map (embed ws i) (filter (fun r => eval_pred r (table_pred ws i w)) (nth i ts [])).
+  map (embed ws i)
+      (filter (fun r => eval_pred r (table_pred ws i w) && eqs_hold (embed ws i r) (table_eqs ws i w)) (nth i ts [])).
 Proof.
   intros Hi. unfold spec. rewrite gcomb_single by now rewrite widths_length.
-  rewrite filter_map'. f_equal. apply filter_ext. intros r. apply eval_embed.
-  - intros c1 c2 H. apply (Hconds c1 c2 H).
-  - apply (proj1 Hscope).
+  rewrite filter_map'. f_equal. apply filter_ext. intros r. apply eval_embed. apply (proj1 Hscope).
 Qed.
 
 Lemma is_whole_candidate sch p cols l pl : has_or p = false ->
@@ -834,28 +867,60 @@ Proof.
 Qed.
 
 Lemma leaf_good i l pl : i < length schs -> scan_candidates schs w sl i = Some l -> In pl l ->
-  good (fun j => Nat.eqb j i) (JScan i pl).
+  good (fun j => Nat.eqb j i) (leaf_select ws i w (JScan i pl)).
 Proof.
   intros Hi Hc Hin. unfold scan_candidates in Hc.
   pose proof (table_pred_no_or ws i w) as Hor.
   assert (jcols ws (JScan i pl) = map (Nat.add (offs ws i)) (touched_local ws w sl i)) as Ecols.
   { cbn [jcols]. f_equal. exact (candidate_cols _ _ _ l pl _ Hor Hc Hin). }
-  split; [split|split].
-  - rewrite Ecols. intros c Hc'. apply in_map_iff in Hc'. destruct Hc' as (k & <- & Hk).
-    unfold touched_local in Hk. apply filter_In in Hk. destruct Hk as [Hk _]. apply in_seq in Hk.
-    rewrite table_of_offs by lia. apply Nat.eqb_refl.
-  - rewrite Ecols. intros c Ht HM. apply Nat.eqb_eq in HM. apply in_map_iff.
-    exists (local_of ws c). split; [rewrite <- HM; symmetry; apply col_split|].
-    unfold touched_local. apply filter_In. split.
-    + apply in_seq. pose proof (local_of_lt ws c (touched_lt c Ht)). rewrite HM in H. lia.
-    + rewrite <- HM, <- col_split. exact Ht.
-  - cbn [whole_scan]. intros i' H. destruct (is_whole pl) eqn:Ew; [|discriminate]. injection H as <-.
-    repeat split; [assumption|]. exact (is_whole_candidate _ _ _ l pl Hor Hc Hin Ew).
-  - destruct Hwf as (_ & _ & Htok). destruct (Hfilters i Hi) as (Hl & Hs).
-    destruct (scan_plan_equiv_nonnull_lemma _ _ _ (nth i ts []) l pl Hor Hl (Htok i Hi) Hs (Hidx i Hi) Hc Hin)
-      as (out & Hrun & Hperm).
-    exists out. split; [exact Hrun|]. rewrite Ecols, (spec_single i Hi), map_map.
-    unfold sel in Hperm. erewrite map_ext; [exact Hperm|]. intros r. apply project_embed.
+  assert (cols_ok (fun j => Nat.eqb j i) (jcols ws (JScan i pl))) as Cok.
+  { split.
+    - rewrite Ecols. intros c Hc'. apply in_map_iff in Hc'. destruct Hc' as (k & <- & Hk).
+      unfold touched_local in Hk. apply filter_In in Hk. destruct Hk as [Hk _]. apply in_seq in Hk.
+      rewrite table_of_offs by lia. apply Nat.eqb_refl.
+    - rewrite Ecols. intros c Ht HM. apply Nat.eqb_eq in HM. apply in_map_iff.
+      exists (local_of ws c). split; [rewrite <- HM; symmetry; apply col_split|].
+      unfold touched_local. apply filter_In. split.
+      + apply in_seq. pose proof (local_of_lt ws c (touched_lt c Ht)). rewrite HM in H. lia.
+      + rewrite <- HM, <- col_split. exact Ht. }
+  destruct Hwf as (_ & _ & Htok). destruct (Hfilters i Hi) as (Hl & Hs).
+  destruct (scan_plan_equiv_nonnull_lemma _ _ _ (nth i ts []) l pl Hor Hl (Htok i Hi) Hs (Hidx i Hi) Hc Hin)
+    as (out & Hrun & Hperm).
+  unfold sel in Hperm. unfold leaf_select.
+  destruct (table_eqs ws i w) as [|x rest] eqn:Eeq.
+  - (* no same-table equality *)
+    cbn [map scan_conj]. split; [exact Cok|split].
+    + cbn [whole_scan]. intros i' H. destruct (is_whole pl) eqn:Ew; [|discriminate]. injection H as <-.
+      repeat split; [assumption| |assumption]. exact (is_whole_candidate _ _ _ l pl Hor Hc Hin Ew).
+    + exists out. split; [exact Hrun|]. rewrite Ecols, (spec_single i Hi), map_map, Eeq.
+      erewrite map_ext by (intros r; apply project_embed).
+      erewrite (filter_ext _ (fun r => eval_pred r (table_pred ws i w))); [exact Hperm|].
+      intros r. apply andb_true_r.
+  - (* the leaf's Selection on them *)
+    destruct (scan_conj (map (fun e => JColEq (fst e) (snd e)) (x :: rest))) as [e|] eqn:Esc; [|discriminate].
+    split; [exact Cok|split; [intros i' H; discriminate|]].
+    cbn [run_join_gen]. rewrite Hrun. eexists. split; [reflexivity|].
+    change (jcols ws (JSelect (JScan i pl) e)) with (jcols ws (JScan i pl)).
+    assert (forall r, project (jcols ws (JScan i pl)) (embed ws i r) = project (touched_local ws w sl i) r) as PE
+      by (intros r; rewrite Ecols; apply project_embed).
+    eapply Permutation_trans; [apply perm_filter; exact Hperm|].
+    rewrite (spec_single i Hi), map_map, Eeq, (map_ext _ _ PE).
+    match goal with |- Permutation ?a ?b => cut (a = b); [intros ->; apply Permutation_refl|] end.
+    rewrite filter_map', filter_filter'. f_equal. apply filter_ext_in. intros r Hr. f_equal.
+    rewrite <- PE.
+    rewrite (scan_conj_sem (eng_jeval (jcols ws (JScan i pl)) (project (jcols ws (JScan i pl)) (embed ws i r)))
+               _ e (fun _ _ => eq_refl) Esc).
+    unfold eqs_hold, mk_eq. apply forallb_ext_in. intros q Hq. apply in_map_iff in Hq. destruct Hq as ([c1 c2] & <- & Hq).
+    cbv beta. cbn [fst snd]. rewrite <- Eeq in Hq. destruct (table_eqs_in i w (c1, c2) Hq) as (Hj & T1 & T2). cbn [fst snd] in T1, T2.
+    destruct (jeqs_key_cols w c1 c2 Hj) as (K1 & K2).
+    assert (In (embed ws i r) (gcomb (fun j => Nat.eqb j i) ws ts)) as Hg
+      by (rewrite gcomb_single by (now rewrite widths_length); now apply in_map).
+    cbn [eng_jeval]. rewrite !lookup_project
+      by (apply Cok; [apply touched_key, key_cols_sub; assumption|rewrite ?T1, ?T2; apply Nat.eqb_refl]).
+    destruct (key_fact _ _ c1 Hg K1 ltac:(rewrite T1; apply Nat.eqb_refl)) as (N1 & V1).
+    destruct (key_fact _ _ c2 Hg K2 ltac:(rewrite T2; apply Nat.eqb_refl)) as (N2 & V2).
+    rewrite (Hconds c1 c2 Hj) in V1.
+    rewrite (cv_eq_ref _ _ _ V1 V2 N2). symmetry. now apply eval_coleq.
 Qed.
 
 Ltac perm_eq := match goal with |- Permutation ?a ?b => cut (a = b); [intros ->; apply Permutation_refl|] end.
@@ -866,7 +931,7 @@ Lemma cross_perm_l t1 t1' t2 : Permutation t1 t1' -> Permutation (cross t1 t2) (
 Proof. intros H. unfold cross. now apply Permutation_flat_map. Qed.
 
 Lemma hash_join_perm kl kr L L' R R' : Permutation L L' -> Permutation R R' ->
-  Permutation (hash_join h kl kr L R) (hash_join h kl kr L' R').
+  Permutation (hash_join true h kl kr L R) (hash_join true h kl kr L' R').
 Proof.
   intros HL HR. unfold hash_join.
   eapply Permutation_trans; [apply Permutation_flat_map; exact HR|].
@@ -939,7 +1004,7 @@ Qed.
 
 Definition pre_good (Mx My : nat -> bool) (extra : row -> bool) (p : jplan) : Prop :=
   cols_ok (fun i => Mx i || My i) (jcols ws p) /\ whole_scan p = None /\
-  exists out, run_join h schs ts p = Some out /\
+  exists out, run_join_gen true h schs ts p = Some out /\
     Permutation out (map (project (jcols ws p)) (filter extra (merged (spec Mx) (spec My)))).
 
 Section Two.
@@ -962,7 +1027,7 @@ Lemma nest_pre : pre_good Mx My (fun _ => true) (JNest x y).
 Proof.
   destruct Hx as (Cx & _ & X & Rx & Px), Hy as (Cy & _ & Y & Ry & Py).
   split; [now apply cols_ok_app|split; [reflexivity|]].
-  exists (cross X Y). split; [cbn [run_join]; now rewrite Rx, Ry|].
+  exists (cross X Y). split; [cbn [run_join_gen]; now rewrite Rx, Ry|].
   eapply Permutation_trans; [apply cross_perm_l; exact Px|].
   eapply Permutation_trans; [apply cross_perm_r; exact Py|].
   perm_eq. cbn [jcols]. rewrite merged_unfold, comp_form.
@@ -997,18 +1062,18 @@ Lemma hash_pre : In cy (jcols ws y) ->
 Proof.
   intros Icy'. destruct Hx as (Cx & _ & X & Rx & Px), Hy as (Cy & _ & Y & Ry & Py).
   split; [now apply cols_ok_app|split; [reflexivity|]].
-  eexists. split; [cbn [run_join]; now rewrite Rx, Ry|].
+  eexists. split; [cbn [run_join_gen]; now rewrite Rx, Ry|].
   eapply Permutation_trans; [apply hash_join_perm; [exact Px|exact Py]|].
   cbn [jcols]. rewrite merged_unfold, comp_form.
   eapply Permutation_trans; [|apply flat_map_swap].
   perm_eq. unfold hash_join. rewrite flat_map_map'. apply flat_map_ext_in'. intros b Hb.
   apply spec_in in Hb. rewrite lookup_project by assumption.
-  destruct (key_fact My b cy Hb Kcy Icy) as (Nb & Zb & Vb).
+  destruct (key_fact My b cy Hb Kcy Icy) as (Nb & Vb).
   destruct (is_null (nth cy b VNull)) eqn:E; [destruct (nth cy b VNull); try discriminate; congruence|].
   rewrite flat_map_map'. apply flat_map_ext_in'. intros a Ha. apply spec_in in Ha.
   rewrite lookup_project by assumption.
-  destruct (key_fact Mx a cx Ha Kcx Mcx) as (Na & Za & Va).
-  rewrite <- Hty in Vb. rewrite (hash_test_ref h _ _ _ Va Vb Na Nb Za Zb).
+  destruct (key_fact Mx a cx Ha Kcx Mcx) as (Na & Va).
+  rewrite <- Hty in Vb. rewrite (hash_test_ref h _ _ _ Va Vb Na Nb).
   rewrite (keq_merge a b Ha Hb), (row_merge a b (jcols ws y) Ha Hb) by apply Cy. reflexivity.
 Qed.
 
@@ -1016,7 +1081,7 @@ Lemma index_pre i : whole_scan y = Some i ->
   pre_good Mx My (fun g => eval_jpred g (JColEq cx cy)) (JIndex x i cx cy).
 Proof.
   intros Hw. destruct Hx as (Cx & _ & X & Rx & Px), Hy as (Cy & Wy & _).
-  destruct (Wy i Hw) as (Hi & HMy & Hnof).
+  destruct (Wy i Hw) as (Hi & HMy & Hnof & Hnoeq).
   assert (table_of ws cy = i) as Ei by (apply Nat.eqb_eq; now rewrite <- HMy).
   assert (cols_ok My (table_cols ws i)) as Ct
     by (apply (cols_ok_ext (fun j => Nat.eqb j i)); [intros; now rewrite HMy|apply table_cols_ok]).
@@ -1030,9 +1095,9 @@ Proof.
   assert (forall a, In a (gcomb Mx ws ts) ->
             point_scan c ty (nth cx a VNull) ti =
             Some (filter (fun r => eval_cmp OEq (nth c r VNull) (nth cx a VNull)) ti)) as Hprobe.
-  { intros a Ha. destruct (key_fact Mx a cx Ha Kcx Mcx) as (Na & _ & Va).
+  { intros a Ha. destruct (key_fact Mx a cx Ha Kcx Mcx) as (Na & Va).
     apply point_scan_ok; [exact Hti| |exact Na]. now rewrite Ety, <- Hty. }
-  cbn [run_join]. rewrite Rx. fold c ty ti.
+  cbn [run_join_gen]. rewrite Rx. fold c ty ti.
   eexists. split.
   { apply index_join_total. intros lr Hlr _.
     apply (Permutation_in _ Px) in Hlr. apply in_map_iff in Hlr. destruct Hlr as (a & <- & Ha).
@@ -1047,7 +1112,7 @@ Proof.
   (* the rows of the inner table are all specified: it has no filter *)
   assert (spec My = map (embed ws i) ti) as ES.
   { rewrite (spec_ext My (fun j => Nat.eqb j i) HMy), (spec_single i Hi). f_equal.
-    apply filter_all. intros r _. rewrite (eval_pred_cmps r _ (table_pred_no_or ws i w)), Hnof. reflexivity. }
+    apply filter_all. intros r _. rewrite (eval_pred_cmps r _ (table_pred_no_or ws i w)), Hnof, Hnoeq. reflexivity. }
   rewrite ES, flat_map_map'. apply flat_map_ext_in'. intros r Hr.
   assert (In (embed ws i r) (gcomb My ws ts)) as Hb.
   { rewrite (gcomb_ext ws My (fun j => Nat.eqb j i) ts HMy), gcomb_single by now rewrite widths_length.
@@ -1063,13 +1128,6 @@ Qed.
 End Keyed.
 
 (** attaching the Selection with the linking equalities *)
-Lemma fold_and_sem (f : jpred -> bool) : (forall a b, f (JAnd a b) = f a && f b) ->
-  forall l e, f (fold_left JAnd l e) = f e && forallb f l.
-Proof.
-  intros Hf. induction l as [|q l IH]; intros e; cbn [fold_left forallb]; [now rewrite andb_true_r|].
-  rewrite IH, Hf. now rewrite andb_assoc.
-Qed.
-
 Lemma final_selection_inv rel e : final_selection rel = Some e ->
   rel <> [] /\ e = fold_left JAnd (removelast rel) (last rel JTrue).
 Proof.
@@ -1096,7 +1154,7 @@ Lemma select_pre extra p rel e : pre_good Mx My extra p -> rel_ok rel -> final_s
 Proof.
   intros (Cp & _ & out & Rp & Pp) Hrel Hfs.
   split; [exact Cp|split; [reflexivity|]].
-  eexists. split; [cbn [run_join]; now rewrite Rp|].
+  eexists. split; [cbn [run_join_gen]; now rewrite Rp|].
   eapply Permutation_trans; [apply perm_filter; exact Pp|].
   perm_eq. cbn [jcols]. rewrite filter_map', filter_filter'. f_equal.
   apply filter_ext_in. intros g Hg. f_equal.
@@ -1106,9 +1164,9 @@ Proof.
   destruct (jeqs_key_cols w c1 c2 Hin) as (K1 & K2).
   cbn [eng_jeval]. rewrite !lookup_project
     by (apply Cp; [apply touched_key, key_cols_sub; assumption|assumption]).
-  destruct (key_merge Mx My Hd a b Ha Hb c1 K1 M1) as (N1 & _ & V1).
-  destruct (key_merge Mx My Hd a b Ha Hb c2 K2 M2) as (N2 & _ & V2).
-  rewrite (proj2 (Hconds c1 c2 Hin)) in V1.
+  destruct (key_merge Mx My Hd a b Ha Hb c1 K1 M1) as (N1 & V1).
+  destruct (key_merge Mx My Hd a b Ha Hb c2 K2 M2) as (N2 & V2).
+  rewrite (Hconds c1 c2 Hin) in V1.
   rewrite (cv_eq_ref _ _ _ V1 V2 N2). symmetry. now apply eval_coleq.
 Qed.
 
@@ -1246,7 +1304,7 @@ Proof.
   - (* exactly one linking equality *)
     destruct (Hin cl cr q (or_introl eq_refl)) as (c1 & c2 & Hj & Hlk).
     destruct (Hinv c1 c2 cl cr q Hlk) as (Il & Ir & -> & Ho).
-    destruct (jeqs_key_cols w c1 c2 Hj) as (K1 & K2). destruct (Hconds c1 c2 Hj) as (_ & Hty).
+    destruct (jeqs_key_cols w c1 c2 Hj) as (K1 & K2). pose proof (Hconds c1 c2 Hj) as Hty.
     assert (In cl (key_cols w) /\ In cr (key_cols w) /\ gcol_type schs cl = gcol_type schs cr /\
             forall g, eval_jpred g (JColEq c1 c2) = eval_jpred g (JColEq cl cr)) as (Kl & Kr & Hty' & Hq).
     { destruct Ho as [E|E]; injection E as -> ->; repeat split; auto. intros g. apply eval_coleq_sym. }
@@ -1323,12 +1381,12 @@ Proof.
 Qed.
 
 Lemma finish_good M p : (forall i, i < length schs -> M i = true) -> good M p ->
-  exists out, run_join h schs ts (finish ws sl p) = Some out /\ Permutation out (join_sel sl w ts).
+  exists out, run_join_gen true h schs ts (finish ws sl p) = Some out /\ Permutation out (join_sel sl w ts).
 Proof.
   intros HM ((C1 & C2) & _ & out & Hr & Hp). unfold join_sel. rewrite <- (spec_full M HM).
   unfold finish. destruct (list_nat_eqb (jcols ws p) sl) eqn:E.
   - apply list_nat_eqb_eq in E. rewrite <- E. now exists out.
-  - cbn [run_join]. rewrite Hr. eexists. split; [reflexivity|].
+  - cbn [run_join_gen]. rewrite Hr. eexists. split; [reflexivity|].
     eapply Permutation_trans; [apply Permutation_map; exact Hp|].
     rewrite map_map. perm_eq. apply map_ext. intros g. apply jproject_project.
     intros c Hc. apply C2; [now apply touched_sel|]. apply HM. rewrite <- widths_length.
@@ -1343,7 +1401,7 @@ Proof.
 Qed.
 
 Theorem every_candidate_equiv_env : forall l p, join_candidates schs w sl = Some l -> In p l ->
-  exists out, run_join h schs ts p = Some out /\ Permutation out (join_sel sl w ts).
+  exists out, run_join_gen true h schs ts p = Some out /\ Permutation out (join_sel sl w ts).
 Proof.
   intros l p Hc Hp. unfold join_candidates in Hc.
   destruct schs as [|s0 [|s1 [|s2 [|s3 rest]]]] eqn:Es; try discriminate; rewrite <- Es in *.
@@ -1390,7 +1448,7 @@ End Env.
 
 Lemma every_candidate_equiv_lemma : forall h schs ts w sl l p,
   tables_wf schs ts -> query_scoped schs w sl -> conds_ok schs w -> filters_ok schs ts w ->
-  indexed_cols_nonnull schs ts -> no_null_keys schs ts w -> no_neg_zero_keys schs ts w ->
+  indexed_cols_nonnull schs ts -> no_null_keys schs ts w ->
   join_candidates schs w sl = Some l -> In p l ->
   exists out, run_join h schs ts p = Some out /\ Permutation out (join_sel sl w ts).
 Proof. intros. eapply every_candidate_equiv_env; eassumption. Qed.
@@ -1398,7 +1456,7 @@ Proof. intros. eapply every_candidate_equiv_env; eassumption. Qed.
 Lemma every_candidate_equiv_2_lemma : forall h s0 s1 t0 t1 w sl l p,
   tables_wf [s0; s1] [t0; t1] -> query_scoped [s0; s1] w sl -> conds_ok [s0; s1] w ->
   filters_ok [s0; s1] [t0; t1] w -> indexed_cols_nonnull [s0; s1] [t0; t1] ->
-  no_null_keys [s0; s1] [t0; t1] w -> no_neg_zero_keys [s0; s1] [t0; t1] w ->
+  no_null_keys [s0; s1] [t0; t1] w ->
   join_candidates [s0; s1] w sl = Some l -> In p l ->
   exists out, run_join h [s0; s1] [t0; t1] p = Some out /\ Permutation out (join_sel sl w [t0; t1]).
 Proof. intros. eapply every_candidate_equiv_env; eassumption. Qed.
@@ -1406,7 +1464,7 @@ Proof. intros. eapply every_candidate_equiv_env; eassumption. Qed.
 Lemma every_candidate_equiv_3_lemma : forall h s0 s1 s2 t0 t1 t2 w sl l p,
   tables_wf [s0; s1; s2] [t0; t1; t2] -> query_scoped [s0; s1; s2] w sl -> conds_ok [s0; s1; s2] w ->
   filters_ok [s0; s1; s2] [t0; t1; t2] w -> indexed_cols_nonnull [s0; s1; s2] [t0; t1; t2] ->
-  no_null_keys [s0; s1; s2] [t0; t1; t2] w -> no_neg_zero_keys [s0; s1; s2] [t0; t1; t2] w ->
+  no_null_keys [s0; s1; s2] [t0; t1; t2] w ->
   join_candidates [s0; s1; s2] w sl = Some l -> In p l ->
   exists out, run_join h [s0; s1; s2] [t0; t1; t2] p = Some out /\
               Permutation out (join_sel sl w [t0; t1; t2]).
@@ -1417,11 +1475,11 @@ Lemma join_candidates_some : forall schs w sl, (length schs = 2 \/ length schs =
   exists l, join_candidates schs w sl = Some l /\ l <> [].
 Proof.
   intros schs w sl Hn.
-  assert (forall i, exists L pl, leaves schs w sl i = Some L /\ In (JScan i pl) L) as HL.
+  assert (forall i, exists L q, leaves schs w sl i = Some L /\ In q L) as HL.
   { intros i. unfold leaves, scan_candidates.
     destruct (candidates_some (nth i schs []) (table_pred (widths schs) i w) (touched_local (widths schs) w sl i)
                 (table_pred_no_or _ _ _)) as (l & -> & Hin).
-    eexists. eexists. split; [reflexivity|]. apply in_map. exact Hin. }
+    eexists. eexists. split; [reflexivity|]. apply (in_map (fun pl => leaf_select (widths schs) i w (JScan i pl))). exact Hin. }
   assert (forall a b, inner schs w a b <> []) as Hinner.
   { intros a b. unfold inner. destruct (final_selection _); destruct (links _ _ _) as [|[[? ?] ?] [|? ?]]; discriminate. }
   assert (forall A B, A <> [] -> B <> [] -> pair_up schs w A B <> []) as Hpair.
@@ -1440,13 +1498,13 @@ Qed.
 (** any two candidates agree *)
 Lemma candidates_agree_lemma : forall h schs ts w sl l p1 p2,
   tables_wf schs ts -> query_scoped schs w sl -> conds_ok schs w -> filters_ok schs ts w ->
-  indexed_cols_nonnull schs ts -> no_null_keys schs ts w -> no_neg_zero_keys schs ts w ->
+  indexed_cols_nonnull schs ts -> no_null_keys schs ts w ->
   join_candidates schs w sl = Some l -> In p1 l -> In p2 l ->
   exists o1 o2, run_join h schs ts p1 = Some o1 /\ run_join h schs ts p2 = Some o2 /\ Permutation o1 o2.
 Proof.
-  intros h schs ts w sl l p1 p2 H1 H2 H3 H4 H5 H6 H7 Hc Hp1 Hp2.
-  destruct (every_candidate_equiv_env h schs ts w sl H1 H2 H3 H4 H5 H6 H7 l p1 Hc Hp1) as (o1 & R1 & P1).
-  destruct (every_candidate_equiv_env h schs ts w sl H1 H2 H3 H4 H5 H6 H7 l p2 Hc Hp2) as (o2 & R2 & P2).
+  intros h schs ts w sl l p1 p2 H1 H2 H3 H4 H5 H6 Hc Hp1 Hp2.
+  destruct (every_candidate_equiv_env h schs ts w sl H1 H2 H3 H4 H5 H6 l p1 Hc Hp1) as (o1 & R1 & P1).
+  destruct (every_candidate_equiv_env h schs ts w sl H1 H2 H3 H4 H5 H6 l p2 Hc Hp2) as (o2 & R2 & P2).
   exists o1, o2. repeat split; try assumption.
   eapply Permutation_trans; [exact P1|apply Permutation_sym; exact P2].
 Qed.
@@ -1454,29 +1512,18 @@ Qed.
 (** whatever the cost model picks *)
 Lemma run_join_select_equiv_lemma : forall h schs ts w sl k p l,
   tables_wf schs ts -> query_scoped schs w sl -> conds_ok schs w -> filters_ok schs ts w ->
-  indexed_cols_nonnull schs ts -> no_null_keys schs ts w -> no_neg_zero_keys schs ts w ->
+  indexed_cols_nonnull schs ts -> no_null_keys schs ts w ->
   join_candidates schs w sl = Some l -> nth_error l k = Some p ->
   exists out, run_join_select h schs w sl k ts = Some out /\ Permutation out (join_sel sl w ts).
 Proof.
-  intros h schs ts w sl k p l H1 H2 H3 H4 H5 H6 H7 Hc Hk. unfold run_join_select. rewrite Hc, Hk.
-  apply (every_candidate_equiv_env h schs ts w sl H1 H2 H3 H4 H5 H6 H7 l p Hc). eapply nth_error_In; eassumption.
+  intros h schs ts w sl k p l H1 H2 H3 H4 H5 H6 Hc Hk. unfold run_join_select. rewrite Hc, Hk.
+  apply (every_candidate_equiv_env h schs ts w sl H1 H2 H3 H4 H5 H6 l p Hc). eapply nth_error_In; eassumption.
 Qed.
 
 (** * 12. The side conditions, decided *)
 
-Definition coltype_eqb (a b : coltype) : bool :=
-  match a, b with TInt, TInt | TFloat, TFloat | TStr, TStr => true | _, _ => false end.
-
 Lemma coltype_eqb_eq a b : coltype_eqb a b = true -> a = b.
 Proof. destruct a, b; try discriminate; reflexivity. Qed.
-
-Definition val_okb (ty : coltype) (v : value) : bool :=
-  match v with
-  | VNull => true
-  | VInt z => coltype_eqb ty TInt && (min_int32 <=? z)%Z && (z <=? max_int32)%Z
-  | VFloat u => coltype_eqb ty TFloat && negb (f_is_nan u)
-  | VStr _ => coltype_eqb ty TStr
-  end.
 
 Lemma val_okb_ok ty v : val_okb ty v = true -> val_ok ty v.
 Proof.
@@ -1489,10 +1536,6 @@ Proof.
   - now apply coltype_eqb_eq in H.
 Qed.
 
-Definition row_okb (sch : schema) (r : row) : bool :=
-  Nat.eqb (length r) (length sch) &&
-  forallb (fun c => val_okb (col_type sch c) (nth c r VNull)) (seq 0 (length sch)).
-
 Lemma row_okb_ok sch r : row_okb sch r = true -> length r = length sch /\ row_ok sch r.
 Proof.
   unfold row_okb. intros H. apply andb_true_iff in H. destruct H as [H1 H2]. apply Nat.eqb_eq in H1.
@@ -1500,10 +1543,6 @@ Proof.
   - apply val_okb_ok. rewrite forallb_forall in H2. apply H2. apply in_seq. lia.
   - rewrite nth_overflow by lia. exact I.
 Qed.
-
-Definition tables_wfb (schs : list schema) (ts : list table) : bool :=
-  Nat.eqb (length ts) (length schs) &&
-  forallb (fun i => forallb (row_okb (nth i schs [])) (nth i ts [])) (seq 0 (length schs)).
 
 Lemma tables_wfb_ok schs ts : tables_wfb schs ts = true -> tables_wf schs ts.
 Proof.
@@ -1519,20 +1558,12 @@ Proof.
   - intros i Hi r Hin. now apply Hr.
 Qed.
 
-Definition lits_okb (sch : schema) (p : pred) : bool :=
-  forallb (fun x => negb (is_null (c3lit x)) && val_okb (col_type sch (c3col x)) (c3lit x)) (cmps p).
-
 Lemma lits_okb_ok sch p : lits_okb sch p = true -> lits_ok sch p.
 Proof.
   unfold lits_okb, lits_ok. rewrite forallb_forall. intros H x Hx. specialize (H x Hx).
   apply andb_true_iff in H. destruct H as [H1 H2]. split; [|now apply val_okb_ok].
   destruct (c3lit x); [discriminate| | |]; discriminate.
 Qed.
-
-Definition filters_okb (schs : list schema) (ts : list table) (w : jpred) : bool :=
-  forallb (fun i => lits_okb (nth i schs []) (table_pred (widths schs) i w) &&
-                    negb (stmt_hits_bad (table_pred (widths schs) i w) (nth i ts [])))
-          (seq 0 (length schs)).
 
 Lemma filters_okb_ok schs ts w : filters_okb schs ts w = true -> filters_ok schs ts w.
 Proof.
@@ -1541,17 +1572,11 @@ Proof.
   split; [now apply lits_okb_ok|]. apply stmt_hits_bad_false. now apply negb_true_iff in H2.
 Qed.
 
-Definition indexed_okb (schs : list schema) (ts : list table) : bool :=
-  forallb (fun i => negb (has_null_in_indexed_col (nth i schs []) (nth i ts []))) (seq 0 (length schs)).
-
 Lemma indexed_okb_ok schs ts : indexed_okb schs ts = true -> indexed_cols_nonnull schs ts.
 Proof.
   unfold indexed_okb, indexed_cols_nonnull. rewrite forallb_forall. intros H i Hi.
   apply has_null_false. apply negb_true_iff. apply H. apply in_seq. lia.
 Qed.
-
-Definition scopedb (schs : list schema) (w : jpred) (sl : list nat) : bool :=
-  forallb (fun c => c <? total (widths schs)) (jpred_cols w ++ sl).
 
 Lemma scopedb_ok schs w sl : scopedb schs w sl = true -> query_scoped schs w sl.
 Proof.
@@ -1559,15 +1584,11 @@ Proof.
   split; intros c Hc; apply Nat.ltb_lt, H, in_or_app; auto.
 Qed.
 
-Definition conds_okb (schs : list schema) (w : jpred) : bool :=
-  forallb (fun e => negb (Nat.eqb (table_of (widths schs) (fst e)) (table_of (widths schs) (snd e))) &&
-                    coltype_eqb (gcol_type schs (fst e)) (gcol_type schs (snd e))) (jeqs w).
-
 Lemma conds_okb_ok schs w : conds_okb schs w = true -> conds_ok schs w.
 Proof.
   unfold conds_okb, conds_ok. rewrite forallb_forall. intros H c1 c2 Hin. specialize (H (c1, c2) Hin).
-  cbn [fst snd] in H. apply andb_true_iff in H. destruct H as [H1 H2].
-  split; [|now apply coltype_eqb_eq]. apply negb_true_iff, Nat.eqb_neq in H1. exact H1.
+  cbn [fst snd] in H.
+  now apply coltype_eqb_eq.
 Qed.
 
 Lemma existsb_false_all {A} (f : A -> bool) l : existsb f l = false -> forall x, In x l -> f x = false.
@@ -1591,29 +1612,24 @@ Proof. apply key_col_vals_dec. intros v Hv ->. discriminate. Qed.
 Lemma has_neg_zero_key_false schs ts w : has_neg_zero_key schs ts w = false -> no_neg_zero_keys schs ts w.
 Proof. apply key_col_vals_dec. intros v Hv ->. unfold is_neg_zero in Hv. rewrite N.eqb_refl in Hv. discriminate. Qed.
 
-(** all side conditions of [every_candidate_equiv], executable *)
-Definition join_hyps_ok (schs : list schema) (ts : list table) (w : jpred) (sl : list nat) : bool :=
-  tables_wfb schs ts && scopedb schs w sl && conds_okb schs w && filters_okb schs ts w &&
-  indexed_okb schs ts && negb (has_null_key schs ts w) && negb (has_neg_zero_key schs ts w).
-
 Lemma join_hyps_sound schs ts w sl : join_hyps_ok schs ts w sl = true ->
   tables_wf schs ts /\ query_scoped schs w sl /\ conds_ok schs w /\ filters_ok schs ts w /\
-  indexed_cols_nonnull schs ts /\ no_null_keys schs ts w /\ no_neg_zero_keys schs ts w.
+  indexed_cols_nonnull schs ts /\ no_null_keys schs ts w.
 Proof.
   unfold join_hyps_ok. intros H.
-  apply andb_true_iff in H. destruct H as [H H7]. apply andb_true_iff in H. destruct H as [H H6].
+  apply andb_true_iff in H. destruct H as [H H6].
   apply andb_true_iff in H. destruct H as [H H5]. apply andb_true_iff in H. destruct H as [H H4].
   apply andb_true_iff in H. destruct H as [H H3]. apply andb_true_iff in H. destruct H as [H1 H2].
   split; [now apply tables_wfb_ok|]. split; [now apply scopedb_ok|]. split; [now apply conds_okb_ok|].
   split; [now apply filters_okb_ok|]. split; [now apply indexed_okb_ok|].
-  split; [apply has_null_key_false|apply has_neg_zero_key_false]; now apply negb_true_iff.
+  apply has_null_key_false. now apply negb_true_iff.
 Qed.
 
 Lemma every_candidate_equiv_checked_lemma : forall h schs ts w sl l p,
   join_hyps_ok schs ts w sl = true -> join_candidates schs w sl = Some l -> In p l ->
   exists out, run_join h schs ts p = Some out /\ Permutation out (join_sel sl w ts).
 Proof.
-  intros h schs ts w sl l p H. destruct (join_hyps_sound schs ts w sl H) as (H1 & H2 & H3 & H4 & H5 & H6 & H7).
+  intros h schs ts w sl l p H. destruct (join_hyps_sound schs ts w sl H) as (H1 & H2 & H3 & H4 & H5 & H6).
   now apply every_candidate_equiv_env.
 Qed.
 
@@ -1656,7 +1672,7 @@ Definition null_w1 : jpred := JColEq 0 2.
 Lemma null_key_two_tables_lemma :
   let schs := [i2; i2] in let ts := [null_na; null_nb] in let sl := [1; 3] in
   tables_wf schs ts /\ query_scoped schs null_w2 sl /\ conds_ok schs null_w2 /\ filters_ok schs ts null_w2 /\
-  indexed_cols_nonnull schs ts /\ no_neg_zero_keys schs ts null_w2 /\
+  indexed_cols_nonnull schs ts /\
   has_null_key schs ts null_w2 = true /\
   map algs (cands schs null_w2 sl) = [[ANest]; [ANest]] /\
   map (run_join wit_hash schs ts) (cands schs null_w2 sl) =
@@ -1684,7 +1700,7 @@ Definition null_w3 : jpred := JAnd (JColEq 0 2) (JColEq 3 4).
 Lemma null_key_plan_dependent_refuted_lemma :
   let schs := [i2; i2; i2] in let ts := [null_ta; null_tb; null_tc] in let sl := [1; 5] in
   tables_wf schs ts /\ query_scoped schs null_w3 sl /\ conds_ok schs null_w3 /\ filters_ok schs ts null_w3 /\
-  indexed_cols_nonnull schs ts /\ no_neg_zero_keys schs ts null_w3 /\
+  indexed_cols_nonnull schs ts /\
   has_null_key schs ts null_w3 = true /\
   exists l pH pN, join_candidates schs null_w3 sl = Some l /\ In pH l /\ In pN l /\
     algs pH = [AHash; AHash] /\ algs pN = [ANest; ANest] /\
@@ -1702,26 +1718,28 @@ Proof.
   split; [vm_compute; reflexivity|]. split; vm_compute; reflexivity.
 Qed.
 
-(** ** float32 -0.0 / +0.0 as join keys (not reachable through SQL text: the
-    front end cannot parse a negative literal; through the row-level API only):
+(** ** float32 -0.0 / +0.0 as join keys (fixed in /repo 47a18be; not reachable through
+    SQL text: the front end cannot parse a negative literal; through the row-level API only):
       ga(x float, y int) = (-0.0, 1)    gb(u float indexed, v int) = (+0.0, 10)
       SELECT ga.y, gb.v FROM ga, gb WHERE ga.x = gb.u
-    hash join: no row (the two zeros serialise, hence hash, differently);
-    index join: (1,10), as the reference (IEEE equality). *)
+    BEFORE the fix ([run_join_gen false]) the hash join returned no row (the two zeros
+    serialise, hence hash, differently) and the index join (1,10), the reference answer
+    (IEEE equality); with the fix ([run_join]) every candidate returns (1,10). *)
 Definition nz_s0 : schema := [(TFloat, false); (TInt, false)].
 Definition nz_s1 : schema := [(TFloat, true); (TInt, false)].
 Definition nz_ga : table := [[VFloat two31; VInt 1]].
 Definition nz_gb : table := [[VFloat 0; VInt 10]].
 
-Lemma neg_zero_key_plan_dependent_refuted_lemma :
+Lemma neg_zero_unfixed_refuted_lemma :
   let schs := [nz_s0; nz_s1] in let ts := [nz_ga; nz_gb] in let w := JColEq 0 2 in let sl := [1; 3] in
   tables_wf schs ts /\ query_scoped schs w sl /\ conds_ok schs w /\ filters_ok schs ts w /\
   indexed_cols_nonnull schs ts /\ no_null_keys schs ts w /\
   has_neg_zero_key schs ts w = true /\
   exists l pH pI, join_candidates schs w sl = Some l /\ In pH l /\ In pI l /\
     algs pH = [AHash] /\ algs pI = [AIndex] /\
-    run_join wit_hash schs ts pH = Some [] /\
-    run_join wit_hash schs ts pI = Some [[VInt 1; VInt 10]] /\
+    run_join_gen false wit_hash schs ts pH = Some [] /\
+    run_join_gen false wit_hash schs ts pI = Some [[VInt 1; VInt 10]] /\
+    run_join wit_hash schs ts pH = Some [[VInt 1; VInt 10]] /\
     join_sel sl w ts = [[VInt 1; VInt 10]].
 Proof.
   cbv zeta. hyps_by_compute. split; [vm_compute; reflexivity|].
@@ -1731,74 +1749,60 @@ Proof.
   split; [vm_compute; reflexivity|].
   split; [apply nth_In; vm_compute; lia|]. split; [apply nth_In; vm_compute; lia|].
   split; [vm_compute; reflexivity|]. split; [vm_compute; reflexivity|].
-  split; [vm_compute; reflexivity|]. split; vm_compute; reflexivity.
+  split; [vm_compute; reflexivity|]. split; [vm_compute; reflexivity|]. split; vm_compute; reflexivity.
 Qed.
 
-(** ** An equality between two columns of ONE table is applied by no plan node
-    (findBestScan skips column = column, findBestJoinInner only keeps equalities
-    that link its two inputs).  SQL:
+(** ** An equality between two columns of ONE table is a filter of that table's scan
+    (fixed in /repo e79176f; before, no plan node applied it).  SQL:
       ta(a0,a1) = (1,1),(2,20)   tb(b0,b1) = (2,3),(1,3)
       SELECT ta.a1, tb.b1 FROM ta, tb WHERE ta.a0 = tb.b0 AND ta.a0 = ta.a1
-    every candidate returns (20,3),(1,3); the reference (1,3). *)
+    every candidate returns (1,3), the reference answer. *)
 Definition st_ta : table := [[VInt 1; VInt 1]; [VInt 2; VInt 20]].
 Definition st_tb : table := [[VInt 2; VInt 3]; [VInt 1; VInt 3]].
 Definition st_w : jpred := JAnd (JColEq 0 2) (JColEq 0 1).
-
-Lemma same_table_equality_dropped_lemma :
-  let schs := [i2; i2] in let ts := [st_ta; st_tb] in let sl := [1; 3] in
-  tables_wf schs ts /\ query_scoped schs st_w sl /\ filters_ok schs ts st_w /\
-  indexed_cols_nonnull schs ts /\ no_null_keys schs ts st_w /\ no_neg_zero_keys schs ts st_w /\
-  conds_okb schs st_w = false /\
-  length (cands schs st_w sl) = 8 /\
-  forallb (fun p => match run_join wit_hash schs ts p with
-                    | Some [[VInt 20; VInt 3]; [VInt 1; VInt 3]] | Some [[VInt 1; VInt 3]; [VInt 20; VInt 3]] => true
-                    | _ => false end) (cands schs st_w sl) = true /\
-  join_sel sl st_w ts = [[VInt 1; VInt 3]].
-Proof.
-  cbv zeta. hyps_by_compute. repeat (split; [vm_compute; reflexivity|]). vm_compute; reflexivity.
-Qed.
 
 (** ** The full statements, refuted *)
 
 Definition every_candidate_equiv_null_keys : Prop := forall h schs ts w sl l p,
   tables_wf schs ts -> query_scoped schs w sl -> conds_ok schs w -> filters_ok schs ts w ->
-  indexed_cols_nonnull schs ts -> no_neg_zero_keys schs ts w ->
+  indexed_cols_nonnull schs ts ->
   join_candidates schs w sl = Some l -> In p l ->
-  exists out, run_join h schs ts p = Some out /\ Permutation out (join_sel sl w ts).
+  exists out, run_join_gen true h schs ts p = Some out /\ Permutation out (join_sel sl w ts).
 
 Lemma every_candidate_equiv_null_keys_refuted_lemma : ~ every_candidate_equiv_null_keys.
 Proof.
   intros H. destruct null_key_plan_dependent_refuted_lemma
-    as (H1 & H2 & H3 & H4 & H5 & H6 & _ & l & pH & pN & Hc & _ & HN & _ & _ & _ & RN & Href).
-  destruct (H wit_hash _ _ _ _ l pN H1 H2 H3 H4 H5 H6 Hc HN) as (out & R & P).
-  rewrite RN in R. injection R as <-. rewrite Href in P. apply Permutation_length in P. discriminate.
+    as (H1 & H2 & H3 & H4 & H5 & _ & l & pH & pN & Hc & _ & HN & _ & _ & _ & RN & Href).
+  destruct (H wit_hash _ _ _ _ l pN H1 H2 H3 H4 H5 Hc HN) as (out & R & P).
+  unfold run_join in *. rewrite RN in R. injection R as <-. rewrite Href in P. apply Permutation_length in P. discriminate.
 Qed.
 
 Definition candidates_agree_null_keys : Prop := forall h schs ts w sl l p1 p2,
   tables_wf schs ts -> query_scoped schs w sl -> conds_ok schs w -> filters_ok schs ts w ->
-  indexed_cols_nonnull schs ts -> no_neg_zero_keys schs ts w ->
+  indexed_cols_nonnull schs ts ->
   join_candidates schs w sl = Some l -> In p1 l -> In p2 l ->
-  exists o1 o2, run_join h schs ts p1 = Some o1 /\ run_join h schs ts p2 = Some o2 /\ Permutation o1 o2.
+  exists o1 o2, run_join_gen true h schs ts p1 = Some o1 /\ run_join_gen true h schs ts p2 = Some o2 /\ Permutation o1 o2.
 
 Lemma candidates_agree_null_keys_refuted_lemma : ~ candidates_agree_null_keys.
 Proof.
   intros H. destruct null_key_plan_dependent_refuted_lemma
-    as (H1 & H2 & H3 & H4 & H5 & H6 & _ & l & pH & pN & Hc & HH & HN & _ & _ & RH & RN & _).
-  destruct (H wit_hash _ _ _ _ l pH pN H1 H2 H3 H4 H5 H6 Hc HH HN) as (o1 & o2 & R1 & R2 & P).
-  rewrite RH in R1. rewrite RN in R2. injection R1 as <-. injection R2 as <-.
+    as (H1 & H2 & H3 & H4 & H5 & _ & l & pH & pN & Hc & HH & HN & _ & _ & RH & RN & _).
+  destruct (H wit_hash _ _ _ _ l pH pN H1 H2 H3 H4 H5 Hc HH HN) as (o1 & o2 & R1 & R2 & P).
+  unfold run_join in *. rewrite RH in R1. rewrite RN in R2. injection R1 as <-. injection R2 as <-.
   apply Permutation_length in P. discriminate.
 Qed.
 
-Definition every_candidate_equiv_neg_zero_keys : Prop := forall h schs ts w sl l p,
+(** the engine before 47a18be ([run_join_gen false]) *)
+Definition every_candidate_equiv_neg_zero_unfixed : Prop := forall h schs ts w sl l p,
   tables_wf schs ts -> query_scoped schs w sl -> conds_ok schs w -> filters_ok schs ts w ->
   indexed_cols_nonnull schs ts -> no_null_keys schs ts w ->
   join_candidates schs w sl = Some l -> In p l ->
-  exists out, run_join h schs ts p = Some out /\ Permutation out (join_sel sl w ts).
+  exists out, run_join_gen false h schs ts p = Some out /\ Permutation out (join_sel sl w ts).
 
-Lemma every_candidate_equiv_neg_zero_keys_refuted_lemma : ~ every_candidate_equiv_neg_zero_keys.
+Lemma every_candidate_equiv_neg_zero_unfixed_refuted_lemma : ~ every_candidate_equiv_neg_zero_unfixed.
 Proof.
-  intros H. destruct neg_zero_key_plan_dependent_refuted_lemma
-    as (H1 & H2 & H3 & H4 & H5 & H6 & _ & l & pH & pI & Hc & HH & _ & _ & _ & RH & _ & Href).
+  intros H. destruct neg_zero_unfixed_refuted_lemma
+    as (H1 & H2 & H3 & H4 & H5 & H6 & _ & l & pH & pI & Hc & HH & _ & _ & _ & RH & _ & _ & Href).
   destruct (H wit_hash _ _ _ _ l pH H1 H2 H3 H4 H5 H6 Hc HH) as (out & R & P).
   rewrite RH in R. injection R as <-. rewrite Href in P. apply Permutation_length in P. discriminate.
 Qed.
@@ -1865,3 +1869,24 @@ Fixpoint dedup_algs (l : list (list jalg)) : list (list jalg) :=
   | [] => []
   | x :: l' => if existsb (leq x) l' then dedup_algs l' else x :: dedup_algs l'
   end.
+
+(** more example statements (Props/C11.v) *)
+Definition ex_td : table := [[VInt 2; VInt 20]; [VInt 2; VInt 21]; [VInt 2; VInt 20]; [VInt 4; VInt 4]].
+Definition ex_wn : jpred := JAnd (JColEq 0 2) (JColEq 1 3).
+Definition ex_wx : jpred := JCmp 1 OGe (VInt 50).
+Definition ex_ws : jpred := JAnd (JColEq 0 2) (JColEq 0 4).
+Definition ex_wt : jpred := JAnd (JAnd (JColEq 0 2) (JColEq 2 4)) (JColEq 0 4).
+
+Lemma chain_by_theorem_lemma : forall h p, In p (cands [ix2; ix2; ix2] ex_w3 [5; 1]) ->
+  exists out, run_join h [ix2; ix2; ix2] [ex_ta; ex_tb; ex_tc] p = Some out /\
+              Permutation out [[VInt 7; VInt 10]; [VInt 3; VInt 20]; [VInt 1; VInt 20]; [VInt 3; VInt 21]; [VInt 1; VInt 21]].
+Proof.
+  intros h p Hp.
+  apply (every_candidate_equiv_checked_lemma h [ix2; ix2; ix2] [ex_ta; ex_tb; ex_tc] ex_w3 [5; 1]
+           (cands [ix2; ix2; ix2] ex_w3 [5; 1]) p); [vm_compute; reflexivity|vm_compute; reflexivity|exact Hp].
+Qed.
+
+(** same-table equalities (Props/C11.v):
+    ... WHERE ta.a0 = tb.b0 AND ta.a0 = ta.a1 AND ta.a0 = 1   and a chain with tc.c0 = tc.c1 *)
+Definition st_w2 : jpred := JAnd (JAnd (JColEq 0 2) (JColEq 0 1)) (JCmp 0 OEq (VInt 1)).
+Definition st_w3 : jpred := JAnd (JAnd (JColEq 0 2) (JColEq 3 5)) (JColEq 4 5).
